@@ -1495,6 +1495,11 @@ pub fn work<C: Case, A: Automaton, const N: usize, const AN: u8, const IS_DFA: b
         let (same_start_run, decreases) = memchr::model_scan_order();
         assert!(decreases == 0, "a prefilter scan starts before the previous one (searched bytes are rescanned)");
         assert!(same_start_run <= 2, "the prefilter rescans from the same offset more than twice");
+        // ... and never about bytes outside the span: work stays proportional to the span
+        let (lo, hi) = memchr::model_scan_range();
+        let base = hay.as_ptr() as usize;
+        assert!(lo == 0 || (lo >= base + s && hi <= base + e), "the prefilter scans bytes outside the span");
+        cover!(lo != 0, "the prefilter scanned something");
     }
     assert!(tr <= e - s, "more than one automaton transition per byte of the span");
     assert!(nonmono == 0, "the search position does not advance monotonically");
